@@ -1,4 +1,4 @@
-HOOK_COMMITS = ["639114e verif hook: Manager.VerifTasks (build tag verif)", "543776b verif hook: Manager.VerifIdle (build tag verif)"]
+HOOK_COMMITS = ["639114e verif hook: Manager.VerifTasks (build tag verif)", "543776b verif hook: Manager.VerifIdle (build tag verif)", "e8a575c verif hook: VerifLoadTasks, Task.VerifInfo (build tag verif)"]
 NOT_BUILT_REASON = {}
 META = {
  "C17": dict(
